@@ -603,7 +603,14 @@ DataView dataSlice(const DataArray &array, const std::vector<double> &start, con
     }
 
     NDSize count(my_start.size(), 1), offset(my_start.size(), 0);
+    const size_t specified = std::max(start.size(), end.size());
+    const NDSize shape = array.dataExtent();
     for (size_t i = 0; i < my_start.size(); i++) {
+        if (i >= specified && i < shape.size()) {
+            // a dimension the caller did not specify is included in full, in both match modes
+            count[i] = shape[i];
+            continue;
+        }
         Dimension dim = array.getDimension(i+1);
         if (my_start[i] > my_end[i]) {
             throw std::invalid_argument("Start position must not be larger than end position.");
